@@ -10,7 +10,7 @@ from ..cfg import TEST, FOR, STMT, Node, fmt_path
 from ..dep import Taint, NONE, STRUCT, VALUE, LEVEL_NAME, self_attrs_in, names_in
 from ..model import stmt_key, AnalysisError, FuncInfo, ClassInfo
 from ..report import rule, Collector
-from .common import RuleCtx, where_of, line_of, dedupe
+from .common import RuleCtx, where_of, line_of, dedupe, none_entailed, dominating_tests
 from .eff import module_methods
 
 U = ast.unparse
@@ -95,6 +95,10 @@ def classify_attr(ctx: RuleCtx, c: ClassInfo, resp: FuncInfo, attr: str):
         if latch_on:
             kinds.append(("LAZY", f"under '{U(t.ast)}' ({f.short}), a test of self.{latch_on[0]} which the same branch "
                                   f"assigns"))
+            lazy_sites.append((f, t, lab))
+        elif none_entailed(dominating_tests(ctx.flow.cfg(f), t) + [(t.ast, lab == "T")], f"{selfn}.{attr}") is True:
+            # the branch is only entered while the attribute is still unset (implied by the tests passed on the way)
+            kinds.append(("LAZY", f"under '{U(t.ast)}' ({f.short}), reached only while self.{attr} is None"))
             lazy_sites.append((f, t, lab))
         elif mentioned and mentioned <= config and not _test_uses_inputs(ctx, f, c, t.ast):
             kinds.append(("CONFIG-GUARDED", f"under '{U(t.ast)}' ({f.short}), which reads only construction-time "
